@@ -152,6 +152,10 @@ type reqCtx struct {
 	bodyErrAt int // -1 none
 	writeErr  bool
 	// record
+	firedKeys  bool // the injected storage faults that actually fired for this delivery
+	firedKEK   bool
+	firedLabel bool
+	firedNet   bool
 	gen        int // key generation storage served to this request
 	gotKeys    bool
 	nonce      int
@@ -191,6 +195,7 @@ func (w *world) getDeviceKeys(devEUI lorawan.EUI64) (joinserver.DeviceKeys, erro
 	}
 	switch c.failKeys {
 	case 1:
+		c.firedKeys = true
 		return joinserver.DeviceKeys{}, errInjected
 	case 2:
 		return joinserver.DeviceKeys{}, joinserver.ErrDevEUINotFound
@@ -216,6 +221,7 @@ func (w *world) getKEK(label string) ([]byte, error) {
 	c.kekCalls++
 	simrt.Trace(evSto, 2, uint64(c.kekCalls))
 	if c.failKEK == c.kekCalls && c.failKEK > 0 {
+		c.firedKEK = true
 		return nil, errInjected
 	}
 	k := w.keks[label]
@@ -234,6 +240,7 @@ func (w *world) getASLabel(devEUI lorawan.EUI64) (string, error) {
 	c := w.ctx()
 	simrt.Trace(evSto, 3, 0)
 	if c.failLabel {
+		c.firedLabel = true
 		return "", errInjected
 	}
 	rec, ok := w.byEUI[devEUI]
@@ -249,6 +256,7 @@ func (w *world) getHomeNetID(devEUI lorawan.EUI64) (lorawan.NetID, error) {
 	c := w.ctx()
 	simrt.Trace(evSto, 4, 0)
 	if c.failNet {
+		c.firedNet = true
 		return lorawan.NetID{}, errInjected
 	}
 	rec, ok := w.byEUI[devEUI]
@@ -382,6 +390,9 @@ func (simTransport) RoundTrip(req *http.Request) (*http.Response, error) {
 func build(sw *sim.World) {
 	w := &world{byEUI: map[lorawan.EUI64]*devRec{}, keks: map[string][]byte{}}
 	theWorld = w
+	for i := range plans {
+		plans[i] = nil
+	}
 	resetHandlerCount()
 	resetGens()
 	r := sim.NewRand(simrt.Raw())
@@ -398,7 +409,9 @@ func build(sw *sim.World) {
 		r.Fill(rec.homeNet[:])
 		if r.Intn(2) == 0 {
 			rec.asLabel = fmt.Sprintf("as-%d", i)
-			w.keks[rec.asLabel] = r.Bytes([]int{16, 24, 32}[r.Intn(3)])
+			if r.Intn(5) != 0 {
+				w.keks[rec.asLabel] = r.Bytes([]int{16, 24, 32}[r.Intn(3)])
+			} // else: a label without a KEK in the store
 		}
 		if i > 0 && r.Intn(6) == 0 {
 			rec.known = false
@@ -430,7 +443,11 @@ func build(sw *sim.World) {
 			senderIDs[i] = "0x" + senderIDs[i]
 		}
 		if r.Intn(2) == 0 {
-			w.keks[senderIDs[i]] = r.Bytes([]int{16, 24, 32}[r.Intn(3)])
+			// (whether a join-server canonicalises the NetID before looking the
+			// KEK up is not defined: the store answers both spellings)
+			k := r.Bytes([]int{16, 24, 32}[r.Intn(3)])
+			w.keks[senderIDs[i]] = k
+			w.keks[netIDs[i].String()] = k
 		}
 	}
 	if r.Intn(4) == 0 {
@@ -490,32 +507,35 @@ func sortedKeys(m map[string][]byte) []string {
 // ---------------------------------------------------------------- NS task
 
 type request struct {
-	sender    string // SenderID as this network server spells its NetID
-	kind      int    // 0 join, 1..3 rejoin type 0..2, 4 homeNS
-	gen       int    // key generation the device used to build the request
-	dev       spec.Device
-	rec       *devRec
-	nonce     uint16 // DevNonce or RJCount
-	phy       []byte
-	badMIC    bool
-	optNeg    bool
-	devAddr   lorawan.DevAddr
-	dl        lorawan.DLSettings
-	rxDelay   int
-	cfList    []byte
-	netID     lorawan.NetID
-	txID      uint32
-	joinEUI   [8]byte
-	viaClient bool
-	rawKind   int // 0 well-formed, 1 empty, 2 junk, 3 wrong message type, 4 bad hex
+	macVersion string // what the NS believes the device speaks; independent of OptNeg
+	sender     string // SenderID as this network server spells its NetID
+	kind       int    // 0 join, 1..3 rejoin type 0..2, 4 homeNS
+	gen        int    // key generation the device used to build the request
+	dev        spec.Device
+	rec        *devRec
+	nonce      uint16 // DevNonce or RJCount
+	phy        []byte
+	badMIC     bool
+	optNeg     bool
+	devAddr    lorawan.DevAddr
+	dl         lorawan.DLSettings
+	rxDelay    int
+	cfList     []byte
+	netID      lorawan.NetID
+	txID       uint32
+	joinEUI    [8]byte
+	viaClient  bool
+	rawKind    int // 0 well-formed, 1 empty, 2 junk, 3 wrong message type, 4 bad hex
 }
 
 func genCFList(r *sim.Rand) []byte {
 	b := make([]byte, 16)
 	if r.Intn(2) == 0 {
+		n := 1 + r.Intn(5)
 		for i := 0; i < 5; i++ {
-			f := uint32(r.Intn(1 << 24))
-			if r.Intn(3) == 0 {
+			// channel frequencies in units of 100 Hz (400 MHz .. 1 GHz), unused slots trailing
+			f := uint32(4000000 + r.Intn(6000000))
+			if i >= n {
 				f = 0
 			}
 			b[3*i], b[3*i+1], b[3*i+2] = byte(f), byte(f>>8), byte(f>>16)
@@ -567,6 +587,7 @@ func nsTask(w *world, id int, netID lorawan.NetID, senderID string, n int, sub u
 		rq.joinEUI = rq.rec.dev.JoinEUI
 		rq.nonce = uint16(r.Intn(1 << 16))
 		rq.optNeg = r.Intn(2) == 0
+		rq.macVersion = []string{"1.0.2", "1.0.3", "1.0.4", "1.1.0", ""}[r.Intn(5)]
 		r.Fill(rq.devAddr[:])
 		rq.dl = lorawan.DLSettings{OptNeg: rq.optNeg, RX2DataRate: uint8(r.Intn(16)), RX1DROffset: uint8(r.Intn(8))}
 		rq.rxDelay = r.Intn(16)
@@ -626,7 +647,13 @@ func nsTask(w *world, id int, netID lorawan.NetID, senderID string, n int, sub u
 			rq.phy = rq.dev.RejoinRequest(byte(rq.kind-1), netLE, rq.nonce, k)
 		}
 		if rq.badMIC && rq.kind <= 3 {
-			rq.phy[len(rq.phy)-1-r.Intn(4)] ^= 1 << uint(r.Intn(8))
+			if r.Intn(2) == 0 {
+				rq.phy[len(rq.phy)-1-r.Intn(4)] ^= 1 << uint(r.Intn(8))
+			} else {
+				// a corrupted body byte (the EUIs and the nonce are covered by the MIC);
+				// byte 1 of a rejoin-request (its type) stays
+				rq.phy[2+r.Intn(len(rq.phy)-6)] ^= 1 << uint(r.Intn(8))
+			}
 		}
 		rq.viaClient = r.Intn(3) != 0
 		if !rq.viaClient && faults && r.Intn(3) == 0 {
@@ -722,14 +749,14 @@ func doRequest(w *world, r *sim.Rand, rq *request, c *reqCtx, faults, live bool)
 			bp := backend.BasePayload{TransactionID: rq.txID}
 			switch rq.kind {
 			case 0:
-				ans, err := cl.JoinReq(context.Background(), backend.JoinReqPayload{BasePayload: bp, MACVersion: "1.0.3", PHYPayload: backend.HEXBytes(rq.phy),
+				ans, err := cl.JoinReq(context.Background(), backend.JoinReqPayload{BasePayload: bp, MACVersion: rq.macVersion, PHYPayload: backend.HEXBytes(rq.phy),
 					DevEUI: lorawan.EUI64(rq.rec.dev.DevEUI), DevAddr: rq.devAddr, DLSettings: rq.dl, RxDelay: rq.rxDelay, CFList: backend.HEXBytes(rq.cfList)})
 				base, got, cerr = ans.BasePayloadResult, ans, err
 			case 4:
 				ans, err := cl.HomeNSReq(context.Background(), backend.HomeNSReqPayload{BasePayload: bp, DevEUI: lorawan.EUI64(rq.rec.dev.DevEUI)})
 				base, got, cerr = ans.BasePayloadResult, ans, err
 			default:
-				ans, err := cl.RejoinReq(context.Background(), backend.RejoinReqPayload{BasePayload: bp, MACVersion: "1.1.0", PHYPayload: backend.HEXBytes(rq.phy),
+				ans, err := cl.RejoinReq(context.Background(), backend.RejoinReqPayload{BasePayload: bp, MACVersion: rq.macVersion, PHYPayload: backend.HEXBytes(rq.phy),
 					DevEUI: lorawan.EUI64(rq.rec.dev.DevEUI), DevAddr: rq.devAddr, DLSettings: rq.dl, RxDelay: rq.rxDelay, CFList: backend.HEXBytes(rq.cfList)})
 				base, got, cerr = ans.BasePayloadResult, ans, err
 			}
@@ -864,14 +891,14 @@ func rawBody(rq *request, sender, receiver string) []byte {
 	switch rq.kind {
 	case 0:
 		bp.MessageType = backend.JoinReq
-		v = backend.JoinReqPayload{BasePayload: bp, MACVersion: "1.0.3", PHYPayload: backend.HEXBytes(rq.phy), DevEUI: lorawan.EUI64(rq.rec.dev.DevEUI),
+		v = backend.JoinReqPayload{BasePayload: bp, MACVersion: rq.macVersion, PHYPayload: backend.HEXBytes(rq.phy), DevEUI: lorawan.EUI64(rq.rec.dev.DevEUI),
 			DevAddr: rq.devAddr, DLSettings: rq.dl, RxDelay: rq.rxDelay, CFList: backend.HEXBytes(rq.cfList)}
 	case 4:
 		bp.MessageType = backend.HomeNSReq
 		v = backend.HomeNSReqPayload{BasePayload: bp, DevEUI: lorawan.EUI64(rq.rec.dev.DevEUI)}
 	default:
 		bp.MessageType = backend.RejoinReq
-		v = backend.RejoinReqPayload{BasePayload: bp, MACVersion: "1.1.0", PHYPayload: backend.HEXBytes(rq.phy), DevEUI: lorawan.EUI64(rq.rec.dev.DevEUI),
+		v = backend.RejoinReqPayload{BasePayload: bp, MACVersion: rq.macVersion, PHYPayload: backend.HEXBytes(rq.phy), DevEUI: lorawan.EUI64(rq.rec.dev.DevEUI),
 			DevAddr: rq.devAddr, DLSettings: rq.dl, RxDelay: rq.rxDelay, CFList: backend.HEXBytes(rq.cfList)}
 	}
 	b, err := json.Marshal(v)
